@@ -213,6 +213,35 @@ impl<E> CQueue<E> {
     }
 
     ///
+    /// Returns the timestamp of the event that the next call to
+    /// `fetch_next` will return, without removing it or advancing the
+    /// clock of the queue. Returns `None` if the queue is empty.
+    ///
+    #[must_use]
+    pub fn next_time(&self) -> Option<Duration> {
+        if self.is_empty() {
+            return None;
+        }
+
+        if let Some((_, time, _)) = self.zero_event_bucket.front() {
+            return Some(*time);
+        }
+
+        // Same scan as `fetch_next`, but on a copy of the window.
+        let mut head = self.head;
+        let mut t1 = self.t1;
+        loop {
+            let min = self.buckets[head].front_time();
+            if self.buckets[head].is_empty() || min > t1 {
+                head = (head + 1) % self.n;
+                t1 += self.t;
+                continue;
+            }
+            return Some(min);
+        }
+    }
+
+    ///
     /// Fetches the smalles event from the calender queue.
     ///
     /// # Panics
